@@ -21,12 +21,19 @@ def run(m, chk):
         "np.zeros/ones/eye/empty without dtype=object, true division of two library integers) reaches a return value or a state write of the listed operations; no fixed-width integer dtype on those paths; on the polynomial "
         "paths of evaluation / insertion / elevation / splitting points are only used as `scalar * point` (point on the right) and `point + point`. Agreement of float and exact results to 1e-9 is not decided."
     )
-    chk.decides = ["E8: no library float reaches a sink of the exact entries", "FIXED-WIDTH", "MIN-POINT", 'MEMO-KEY', 'no truncated library float (int(float)) used as a value', 'ONE-NODE-FAMILY (fit_points)', 'PROBE-OPERAND (+= / -= of a KnotVector ask the operand whether it is a number)']
+    chk.decides = ["E8: no library float reaches a sink of the exact entries", "FIXED-WIDTH", "MIN-POINT", 'MEMO-KEY', 'no truncated library float (int(float)) used as a value', 'ONE-NODE-FAMILY (fit_points)', 'PROBE-OPERAND (+= / -= of a KnotVector ask the operand whether it is a number)', 'LOSSY-COMPARE', 'DTYPE-INHERIT']
     chk.not_decided = ["float and exact runs agree to relative 1e-9", "conditioning", "values equal the mathematically exact result"]
     chk.assume("user `int / int` at the API surface is Python semantics, not a float introduced by the library")
     chk.assume("a true division is reported only when both operands are library integers on every path ('may be an integer' is not reported)")
     chk.assume("unknown number kinds are never reported; their number is given in the evidence")
     ents = entries(m.prog)
+    nsink = e8_sinks(chk, AX, ents)
+    chk.floor("E8", "sinks (returns and state writes) of the exact entries", nsink, 90)
+    _rest(m, chk, r, AX, ents)
+
+
+def e8_sinks(chk, AX, ents) -> int:
+    """no float introduced by the library reaches a return value or a state write of the given exact entries"""
     nsink = 0
     for q in ents:
         ctx = AX.roots.get(q)
@@ -50,7 +57,10 @@ def run(m, chk):
             chk.ob("E8", f"{q}: no library float reaches the {what}", not bad, loc=src[0].split(": ")[0] if (bad and src) else f"{ctx.fi.module}.py:{ctx.fi.node.lineno}",
                    detail="" if not bad else f"{q}: with exact input a float introduced by the library reaches the {what}: {'; '.join(src[:3]) or 'origin not tracked'}",
                    func=q, construct=f"float reaches {what.split(' ')[0]}: " + (src[0].split(': ', 1)[1][:60] if src else "?"))
-    chk.floor("E8", "sinks (returns and state writes) of the exact entries", nsink, 90)
+    return nsink
+
+
+def _rest(m, chk, r, AX, ents):
     chk.extra["unknown_kind_guards"] = AX.stats.get("u_guards", 0)
     chk.extra["exact_entries"] = len(ents)
     # fixed-width integers
@@ -67,6 +77,10 @@ def run(m, chk):
     from .extra import memo_key, one_node_family, probe_operand
 
     memo_key(r, chk)
+    from .extra import dtype_inherit, lossy_compare
+
+    lossy_compare(r, chk, AX)
+    dtype_inherit(r, chk, ents)
     one_node_family(r, chk, "curves.Curve.fit_points")
     probe_operand(r, chk, ["knotspace.KnotVector.__iadd__", "knotspace.KnotVector.__isub__"])
     # positive control: the kind analysis does see library floats where they are by design
@@ -112,6 +126,15 @@ def run(m, chk):
             if isinstance(comp, (ast.ListComp, ast.GeneratorExp)):
                 pts |= set(_comp_points(comp, is_cont))
         for node in ast.walk(fi.node):
+            # the builtin sum() starts from the int 0: `0 + point` asks the point type for __radd__ with an int
+            if isinstance(node, ast.Call) and isinstance(node.func, ast.Name) and node.func.id == "sum" and len(node.args) == 1 and not node.keywords:
+                a0 = node.args[0]
+                summed_points = (isinstance(a0, (ast.ListComp, ast.GeneratorExp)) and is_pt(a0.elt, local=_comp_points(a0, is_cont))) or is_cont(a0)
+                if summed_points:
+                    n += 1
+                    chk.ob("MIN-POINT", f"{q}: `{seg(node, 50)}` does not add a point to the int 0", False, loc=r.loc(ctx, node),
+                           detail=f"{q}: `{seg(node, 60)}` sums (weighted) control points with the builtin sum(), which starts from the int 0: the first step is `0 + point`, and a user point type that only supports `scalar * point` and `point + point` has no __radd__ for an int — start from `0 * point` (or give sum a start value of the point type)",
+                           func=q, construct=f"points summed from int 0: {seg(node, 40)}")
             # division of a point (point / scalar, point /= scalar) is not among the two supported operations
             dv = None
             if isinstance(node, ast.BinOp) and isinstance(node.op, ast.Div) and (is_pt(node.left) or is_cont(node.left)):
